@@ -55,7 +55,7 @@ theorem window_exact (c w lo hi x : Rat) (hw : 0 < w) (hr : lo < hi) (inv : Bool
   have hlo : lo + R - lo = R := by ring
   unfold voiWindowLinear refExact
   have hs : ("LINEAR_EXACT" == "LINEAR") = false := by decide
-  simp only [hs, Bool.false_eq_true, ↓reduceIte]
+  simp only [hs, Bool.false_and, Bool.false_eq_true, ↓reduceIte]
   cases inv
   · simp only [Bool.false_eq_true, ↓reduceIte]
     rw [e1, key]
@@ -64,13 +64,31 @@ theorem window_exact (c w lo hi x : Rat) (hw : 0 < w) (hr : lo < hi) (inv : Bool
     rw [e2, keyi]
     simp only [c1, c2, hlo]
 
-/-- the translated window function with LINEAR is the three-piece definition of PS3.3 C.11.2.1.2.1 -/
-theorem window_linear (c w lo hi x : Rat) (hw : 1 < w) (hr : lo < hi) (inv : Bool) :
+/-- the translated window function with LINEAR is the three-piece definition of PS3.3 C.11.2.1.2.1, for every width
+    >= 1: width 1 is the step at c - 1/2 (its own branch in the source since the fix of C06-linear-width-one) -/
+theorem window_linear (c w lo hi x : Rat) (hw : 1 ≤ w) (hr : lo < hi) (inv : Bool) :
     voiWindowLinear x c w "LINEAR" lo hi inv
       = .ok (if inv then hi + lo - refLinear c w lo hi x else refLinear c w lo hi x) := by
+  rcases eq_or_lt_of_le hw with h1 | hw
+  · -- width exactly 1: the step
+    subst h1
+    unfold voiWindowLinear refLinear
+    have e : c - (1 : Rat) / (2 / 1) = c - 1 / 2 := by norm_num
+    have e2 : c - 1 / 2 - ((1 : Rat) - 1) / 2 = c - 1 / 2 := by norm_num
+    have e3 : c - 1 / 2 + ((1 : Rat) - 1) / 2 = c - 1 / 2 := by norm_num
+    simp only [beq_self_eq_true, Int.cast_one, Bool.and_self, ↓reduceIte, e, e2, e3, decide_eq_true_eq]
+    by_cases hx : x ≤ c - 1 / 2
+    · simp only [hx, ↓reduceIte]
+      cases inv <;> simp
+    · have hx' : x > c - 1 / 2 := lt_of_not_ge hx
+      simp only [hx, hx', ↓reduceIte]
+      cases inv <;> simp
   obtain ⟨R, rfl⟩ : ∃ R, hi = lo + R := ⟨hi - lo, by ring⟩
   have hw1 : 0 < w - 1 := by linarith
   have hw' : w - 1 ≠ 0 := ne_of_gt hw1
+  have hwne : (w == (1 : Rat)) = false := by
+    have : w ≠ 1 := ne_of_gt hw
+    simpa using this
   have hR : 0 < R := by linarith
   have key := clip_pieces ((x - (c - 1/2)) / (w - 1) + 1/2) R lo hR
   have keyi := clip_pieces_inv ((x - (c - 1/2)) / (w - 1) + 1/2) R lo hR
@@ -85,7 +103,7 @@ theorem window_linear (c w lo hi x : Rat) (hw : 1 < w) (hr : lo < hi) (inv : Boo
     rw [gt_iff_lt, div_add' _ _ _ hw', lt_div_iff₀ hw1]; constructor <;> intro h <;> linarith
   have hlo : lo + R - lo = R := by ring
   unfold voiWindowLinear refLinear
-  simp only [beq_self_eq_true, ↓reduceIte, Int.cast_one]
+  simp only [beq_self_eq_true, ↓reduceIte, Int.cast_one, hwne, Bool.and_false, Bool.false_eq_true]
   cases inv
   · simp only [Bool.false_eq_true, ↓reduceIte]
     rw [e1, key]
@@ -99,7 +117,7 @@ theorem fold_exact_value (c w b m lo hi s : Rat) (hm : m ≠ 0) (hw : w ≠ 0) (
     (inv : Bool) :
     voiWindowLinear s ((c - b) / m) (w / m) fn lo hi inv = voiWindowLinear (m * s + b) c w fn lo hi inv := by
   unfold voiWindowLinear
-  simp only [hfn, Bool.false_eq_true, ↓reduceIte]
+  simp only [hfn, Bool.false_and, Bool.false_eq_true, ↓reduceIte]
   have e1 : (s - ((c - b) / m - w / m / (2 / 1))) * ((hi - lo) / (w / m))
       = (m * s + b - (c - w / (2 / 1))) * ((hi - lo) / w) := by
     field_simp; ring
@@ -108,12 +126,23 @@ theorem fold_exact_value (c w b m lo hi s : Rat) (hm : m ≠ 0) (hw : w ≠ 0) (
     field_simp; ring
   rw [e1, e2]
 
-/-- ... and the LINEAR form, with the (c - 1/2) and (w - 1) terms -/
+/-- ... and the LINEAR form, with the (c - 1/2) and (w - 1) terms (width != 1: neither side is the step) -/
 theorem fold_linear_value (c w b m lo hi s : Rat) (hm : m ≠ 0) (hw : w - 1 ≠ 0) (inv : Bool) :
     voiWindowLinear s ((c - 1/2 - b) / m + 1/2) ((w - 1/1) / m + 1/1) "LINEAR" lo hi inv
       = voiWindowLinear (m * s + b) c w "LINEAR" lo hi inv := by
   unfold voiWindowLinear
-  simp only [beq_self_eq_true, ↓reduceIte, Int.cast_one]
+  have hw1 : (w == (1 : Rat)) = false := by
+    have : w ≠ 1 := fun h => hw (by rw [h]; ring)
+    simpa using this
+  have hw2 : (((w - 1/1) / m + 1/1) == (1 : Rat)) = false := by
+    have : (w - 1/1) / m + 1/1 ≠ 1 := by
+      intro h
+      have h0 : (w - 1/1) / m = 0 := by linarith
+      rcases div_eq_zero_iff.mp h0 with h1 | h1
+      · exact hw (by linarith)
+      · exact hm h1
+    simpa using this
+  simp only [beq_self_eq_true, ↓reduceIte, Int.cast_one, hw1, hw2, Bool.and_false, Bool.false_eq_true]
   have e1 : (s - ((c - 1/2 - b) / m + 1/2 - ((w - 1/1) / m + 1/1) / (2 / 1))) * ((hi - lo) / ((w - 1/1) / m + 1/1 - 1))
       = (m * s + b - (c - w / (2 / 1))) * ((hi - lo) / (w - 1)) := by
     have : (w - 1/1) / m + 1/1 - 1 = (w - 1) / m := by ring
@@ -123,6 +152,21 @@ theorem fold_linear_value (c w b m lo hi s : Rat) (hm : m ≠ 0) (hw : w - 1 ≠
     have : (w - 1/1) / m + 1/1 - 1 = (w - 1) / m := by ring
     rw [this]; field_simp; ring
   rw [e1, e2]
+
+/-- width exactly 1 behind a rescale with POSITIVE slope: the folded window is the step at the stored value whose
+    rescaled value is c - 1/2 (behind a negative slope the effective width is 1 again and the direction of the step is
+    lost: open finding C06-linear-width-one-negative-slope) -/
+theorem fold_linear_value_unit (c b m lo hi s : Rat) (hm : 0 < m) (inv : Bool) :
+    voiWindowLinear s ((c - 1/2 - b) / m + 1/2) (((1 : Rat) - 1/1) / m + 1/1) "LINEAR" lo hi inv
+      = voiWindowLinear (m * s + b) c 1 "LINEAR" lo hi inv := by
+  have hw : ((1 : Rat) - 1/1) / m + 1/1 = 1 := by norm_num
+  rw [hw]
+  unfold voiWindowLinear
+  have e : (c - 1/2 - b) / m + 1/2 - (1 : Rat) / (2 / 1) = (c - 1/2 - b) / m := by norm_num
+  have e' : c - (1 : Rat) / (2 / 1) = c - 1/2 := by norm_num
+  have hiff : s ≤ (c - 1/2 - b) / m ↔ m * s + b ≤ c - 1/2 := by
+    rw [le_div_iff₀ hm]; constructor <;> intro h <;> linarith
+  simp only [beq_self_eq_true, Int.cast_one, Bool.and_self, ↓reduceIte, e, e', hiff]
 
 theorem fold_sigmoid_value (c w b m s : Rat) (hm : m ≠ 0) (hw : w ≠ 0) (inv : Bool) :
     voiSigmoidArg s ((c - b) / m) (w / m) inv = voiSigmoidArg (m * s + b) c w inv := by
@@ -898,8 +942,11 @@ structure WellFormed (p : Params) (st : Stages) : Prop where
   /-- stages are only chosen where parameters exist (`flag_none_iff_present`: OnlyPresent) -/
   mod_present : st.modality = true → p.modality ≠ .none
   voi_present : st.voi = true → p.voi ≠ .none
-  /-- window widths: LINEAR > 1 (width 1 divides by zero), LINEAR_EXACT > 0, SIGMOID != 0 -/
-  win_linear : ∀ c w, st.voi = true → p.voi = .window .linear c w → 1 < w
+  /-- window widths: LINEAR >= 1 (width 1 is the step), LINEAR_EXACT > 0, SIGMOID != 0 -/
+  win_linear : ∀ c w, st.voi = true → p.voi = .window .linear c w → 1 ≤ w
+  /-- a LINEAR window of width exactly 1 behind a rescale: positive slope only (behind a negative slope the folded step
+      loses its direction: open finding C06-linear-width-one-negative-slope) -/
+  unit_slope : ∀ m b c, st.modality = true → p.modality = .rescale m b → st.voi = true → p.voi = .window .linear c 1 → 0 < m
   win_exact : ∀ c w, st.voi = true → p.voi = .window .exact c w → 0 < w
   win_sigmoid : ∀ c w, st.voi = true → p.voi = .window .sigmoid c w → w ≠ 0
   /-- RescaleSlope is not 0 in front of a window -/
